@@ -604,9 +604,27 @@ def build_scheme(B, T, unit, form=0):
     """A ScoringScheme with penalties q / unit, built in one of the ways a user may build it:
     0 lists of floats; 1 lists of Python ints when every penalty is integral (else floats); 2 the caller keeps the
     lists it gave and overwrites them afterwards (the scheme must not change); 3 as  (k * s) / k-th  of the scheme,
-    i.e. through the library's own __mul__ / __rmul__ with exact dyadic factors (4 * s, then * 0.25)."""
+    i.e. through the library's own __mul__ / __rmul__ with exact dyadic factors (4 * s, then * 0.25); 4 as a quarter of
+    a scheme four times as large that has ALREADY SERVED (cost table, score, nickname, description) before it is
+    multiplied."""
     from corankco.scoringscheme import ScoringScheme
-    form = form % 4
+    form = form % 5
+    if form == 4:
+        big = ScoringScheme([[4 * x for x in v] for v in scheme_float(B, T, unit)])
+        try:
+            from corankco.algorithms.pairwisebasedalgorithm import PairwiseBasedAlgorithm
+            from corankco.dataset import Dataset
+            from corankco.kemeny_score_computation import KemenyComputingFactory
+            from corankco.ranking import Ranking
+            d0 = Dataset.from_raw_list([[{1}, {2}], [{2, 3}]])
+            PairwiseBasedAlgorithm.pairwise_cost_matrix(d0.get_positions(), big)
+            KemenyComputingFactory(big).get_kemeny_score(Ranking([{1}, {2}, {3}]), d0)
+            big.get_nickname()
+            big.description()
+            str(big)
+        except Exception:
+            pass
+        return big * 0.25 if (B[1] + T[0]) % 2 else 0.25 * big
     vec = scheme_float(B, T, unit)
     if form == 1 and all(float(x).is_integer() for v in vec for x in v):
         return ScoringScheme([[int(x) for x in v] for v in vec])
